@@ -440,6 +440,8 @@ fn run(ctx: &RunCtx) -> Report {
             break;
         }
         let ok = found(&sim, op, &stored, writer_ip);
+        // (the same lookup already in flight: the earlier caller shares the lookup and is owed the value too)
+        let ok = ok && (variant != 1 || pre_ops.iter().all(|p| found(&sim, *p, &stored, writer_ip)));
         if !pre {
             report.probe("vacuous_reader_no_reachable_acker", 1);
             continue;
